@@ -20,7 +20,9 @@
 (*          units: <<[u, path, name, comp, typ, graph, parent, src, srcin]>>*)
 (*          ends: <<unit ids whose output reaches the result>>             *)
 (*   enter  u, in            the body of leaf u got input `in` (u = top:   *)
-(*                           the call was made with input `in`)            *)
+(*                           the call was made with input `in`; u = nested *)
+(*                           graph: the condition of the branch on its     *)
+(*                           START was evaluated on `in`)                  *)
 (*   exit   u, out, fail     the body of u is about to return out / fail   *)
 (*   cb     h, t, name, comp, typ, pl, strm                                *)
 (*          handler h was invoked with timing t in                         *)
@@ -110,8 +112,9 @@ CbData(S, e) ==
   ELSE [S EXCEPT !.data = @ \cup {[h |-> e.h, name |-> e.name, t |-> e.t, pl |-> e.pl]}]
 
 \* ---------------------------------------------------------------- completeness at the end of the case
-Ran(S, u) == IF ~u.graph \/ u.parent = "" THEN u.u \in DOMAIN S.ins
-             ELSE \E v \in Units(S.c) : v.parent = u.u /\ v.u \in DOMAIN S.ins
+\* a nested graph ran if one of its nodes ran, or if harness-owned code inside it (the condition of a branch on its START) logged `enter`
+Ran(S, u) == \/ u.u \in DOMAIN S.ins
+             \/ (u.graph /\ u.parent # "" /\ \E v \in Units(S.c) : v.parent = u.u /\ v.u \in DOMAIN S.ins)
 Failed(S, u) == IF u.parent = "" THEN S.ret.err
                 ELSE IF u.graph THEN \E v \in Units(S.c) : v.parent = u.u /\ v.u \in DOMAIN S.outs /\ S.outs[v.u].fail
                 ELSE u.u \in DOMAIN S.outs /\ S.outs[u.u].fail
